@@ -2651,7 +2651,13 @@ class DataStoreMgr:
         )
         if not tproxy:
             return
-        new_flow_nums = deserialise_set(tproxy.flow_nums).difference(removed)
+        flow_nums_str = tproxy.flow_nums
+        tp_delta = self.updated[TASK_PROXIES].get(tp_id)
+        if tp_delta is not None and tp_delta.HasField('flow_nums'):
+            # a change of the flow numbers (e.g. a flow merge earlier in
+            # this main loop iteration) has not been applied yet
+            flow_nums_str = tp_delta.flow_nums
+        new_flow_nums = deserialise_set(flow_nums_str).difference(removed)
         self._delta_task_flow_nums(tp_id, new_flow_nums)
 
     def _delta_task_flow_nums(self, tp_id: str, flow_nums: 'FlowNums') -> None:
